@@ -191,6 +191,11 @@ impl BytecodeBuilder {
     }
 
     /// Set the current source span for source map
+    /// The span instructions are currently attributed to (the node being compiled)
+    pub fn current_span(&self) -> Option<Span> {
+        self.current_span
+    }
+
     pub fn set_span(&mut self, span: Span) {
         self.current_span = Some(span);
     }
